@@ -64,8 +64,17 @@ type Loop struct {
 	If      *Cond  `json:"if,omitempty"`
 	IfFirst bool   `json:"if_first,omitempty"` // v-if attribute written before v-for
 	Bind    string `json:"bind,omitempty"`     // :data-x="<path>" on the looped element
+	// Fill puts v-html / v-text on the looped element itself (its content is then the value
+	// of the path; Body is not rendered). Not on <template>.
+	Fill *Fill `json:"fill,omitempty"`
 	Body    []Node `json:"body,omitempty"`
 	Else    *Else  `json:"else,omitempty"`
+}
+
+// Fill is a content directive: Dir "v-html" or "v-text".
+type Fill struct {
+	Dir  string `json:"dir"`
+	Path string `json:"path"`
 }
 
 // Else is the immediately following v-else sibling.
@@ -89,7 +98,11 @@ type Probe struct {
 }
 
 // Read is one variable read. Pos: "text" {{ path }}, "tern" {{ cond ? 'Y' : 'N' }},
-// "vif" <b data-m=ID.k v-if="cond">, "attr" <u data-m=ID.k :data-x="path">.
+// "vif" <b data-m=ID.k v-if="cond">, "attr" <u data-m=ID.k :data-x="path">. Constructs that the
+// engine evaluates by rewriting or specially treating the node (each instance must still show
+// ITS item): "thtml" <s data-m=ID.k><template v-html="path"></template></s>, "vhtml" / "vtext"
+// <s data-m=ID.k v-html|v-text="path">, "vshow" <b v-show="cond">, "class" <b :class="{hit: cond}">,
+// "style" <b :style="{color: path}">.
 type Read struct {
 	Pos string `json:"pos"`
 	Cond
@@ -295,6 +308,20 @@ func check(c Case) error {
 				return fmt.Errorf("marker #%d %s: attribute %s=%q (present=%v), expected %q (%s)%s", i, w.id, k, gv, ok, v, w.why, show())
 			}
 		}
+		for _, rq := range w.reqs {
+			gv := g.Attrs[rq.attr]
+			found := false
+			if rq.token {
+				for _, f := range strings.Fields(gv) {
+					found = found || f == rq.needle
+				}
+			} else {
+				found = strings.Contains(strings.Join(strings.Fields(gv), ""), rq.needle)
+			}
+			if found != rq.want {
+				return fmt.Errorf("marker #%d %s: attribute %s=%q, expected it to contain %q: %v (%s)%s", i, w.id, rq.attr, gv, rq.needle, rq.want, w.why, show())
+			}
+		}
 	}
 	// nesting of the marked elements (instances inside instances)
 	var ctlFree []*hx.N
@@ -349,7 +376,7 @@ func TestProp(t *testing.T) {
 	// (fresh / shadows a root scalar / shadows the collection itself) x root kind x v-else x v-if x tag
 	core1(run.Thorough(), each("core1"))
 	if ok {
-		design := run.Pick("v-else separator / v-if kind / element-or-template rotated over the rest", "full product")
+		design := run.Pick("v-else separator / v-if kind / element-or-template / index name rotated over the rest", "full product")
 		rec.Exhaustive(fmt.Sprintf("core1 (%s): single loop, every sequence kind x lengths 0..4 + nil slice / nil value / missing x forms x loop-variable names (fresh, root scalar by key / Go name / JSON tag, own collection) x index names x root kinds x v-else x v-if x element/template (%d cases)", design, n))
 	}
 	// exhaustive core 2: two nested loops, every assignment of 4 names to (outer idx, outer var, inner idx, inner var)
